@@ -329,7 +329,46 @@ class C06(Check):
             if got != m:
                 a = res[1] if res[0] == 'OK' else got
                 bm = dec(m[3:]) if m.startswith('OK ') else m
-                ctx.disagree('sheet.cssText', {'src': case['src'], 'prefs': case['prefs'], 'raw': case.get('raw', False)}, a[:3000], bm[:3000])
+                prefs = case['prefs']
+                if len(ctx.disagreements) < 3:
+                    prefs = self.shrink_prefs(ctx, case['src'], prefs)
+                ctx.disagree('sheet.cssText', {'src': case['src'], 'prefs': prefs, 'shrunk_from': case['prefs'],
+                                               'raw': case.get('raw', False)}, a[:3000], bm[:3000])
+
+    def disagrees(self, ctx, src, d):
+        im = self.im
+        try:
+            sh = im.parse(src)
+            toks = X.sheet(sh)
+        except Exception:
+            return False
+        res, line = im.serialize(sh, self.full(im, d), toks)
+        if line is None:
+            return False
+        m = ctx.driver([line])[0]
+        if res[0] != 'OK':
+            return m != 'ERR ' + res[1]
+        if m == 'OK ' + enc(res[1]):
+            return False
+        try:
+            return not (m.startswith('OK ') and dec(m[3:]).encode(res[3], 'escapecss') == res[2])
+        except Exception:
+            return True
+
+    def shrink_prefs(self, ctx, src, prefs):
+        """greedy: drop every preference assignment that is not needed for the disagreement"""
+        cur = dict(prefs)
+        try:
+            if not self.disagrees(ctx, src, cur):
+                return prefs
+            for k in sorted(prefs):
+                t = dict(cur)
+                del t[k]
+                if self.disagrees(ctx, src, t):
+                    cur = t
+        except Exception:
+            return prefs
+        return cur
 
     # -- the oracle on one (sheet, record) ----------------------------------------------------------
     def oracle_case(self, ctx, im, sh, src, prefs, dp, res, d0, kinds, cache, deep=True):
@@ -530,8 +569,8 @@ class C06(Check):
     def run_sheets(self, ctx, im):
         rng = ctx.sub_rng('sheets')
         singles = self.singles(im)
-        n_all = ctx.n(8, 60)          # sheets that get singles + ALL PAIRS + minified + random records
-        n_some = ctx.n(60, 1500)      # sheets that get default, minified, a few singles, pairs and random records
+        n_all = ctx.n(10, 60)         # sheets that get singles + ALL PAIRS + minified + random records
+        n_some = ctx.n(80, 1500)      # sheets that get default, minified, a few singles, pairs and random records
         pending = []
         for i in range(n_all):
             src = G.sheet(rng)
@@ -741,6 +780,54 @@ class C06(Check):
             im.cu.ser.prefs.useDefaults()
         return True
 
+    def replay_history(self, ctx, im, w):
+        cu = im.cu
+        cu.setSerializer(cu.serialize.CSSSerializer())
+        sh = im.parse(w['src'])
+        d0 = sh.cssText
+        p = cu.ser.prefs
+        try:
+            for step in w['history']:
+                if step == 'useMinified()':
+                    p.useMinified()
+                elif isinstance(step, dict):
+                    for k, v in step.items():
+                        setattr(p, k, v)
+                try:
+                    sh.cssText
+                except Exception:
+                    pass
+            p.useDefaults()
+            d1 = sh.cssText
+        finally:
+            p.useDefaults()
+        if d1 != d0:
+            ctx.violate('useDefaults() does not restore the default output', w, None)
+        cu.setSerializer(cu.serialize.CSSSerializer())
+
+    def replay_script(self, ctx, im, w):
+        Out = im.cu.serialize.Out
+
+        class Obj:
+            def __init__(self, t):
+                self.cssText = t
+        prefs = self.full(im, w.get('prefs', {}))
+        ptoks = []
+        for mode, v, t, fl in w['script']:
+            ptoks += [{'s': 's', 'o': 'o', 'm': 'o', 'n': 'n'}[mode]] + ([] if mode == 'n' else [enc(v)]) \
+                + [X.ty(t)] + [X.b(x) for x in fl]
+
+        def go():
+            o = Out(im.cu.ser)
+            for mode, v, t, fl in w['script']:
+                val = {'s': v, 'o': Obj(v), 'm': Obj(v), 'n': None}[mode]
+                o.append(val, t, space=fl[0], keepS=fl[1], indent=fl[2], alwaysS=fl[3])
+            return o.value()
+        got = 'OK ' + enc(im.with_prefs(prefs, go))
+        m = ctx.driver(['calls 1 ' + ' '.join(X.prefs_tokens(prefs)) + ' %d ' % len(w['script']) + ' '.join(ptoks)])[0]
+        if got != m:
+            ctx.disagree('Out.append script', w, got, m)
+
     def replay(self, ctx, data):
         im = Impl()
         self.im = im
@@ -753,8 +840,13 @@ class C06(Check):
                     wits.append(bk['input'])
             for w in wits:
                 if 'history' in w:
+                    if 'src' in w:
+                        self.replay_history(ctx, im, w)
+                    else:
+                        self.oracle_record(ctx, im)
                     continue
                 if 'script' in w:
+                    self.replay_script(ctx, im, w)
                     continue
                 pending = self.check_sheet(ctx, im, w['src'], [w.get('prefs', {})], 'replay', roundtrip=False)
                 self.flush(ctx, pending)
